@@ -64,4 +64,35 @@ def subStep (s : SubSt) : SubEv → SubSt
 
 def subRun (evs : List SubEv) : SubSt := evs.foldl subStep {}
 
+/-! ### two notifications for one pilot handled by `PilotManager._update_pilot` on a thread each
+
+A notification is handled in two steps - read the pilot's state and plan the progression, then apply it to the pilot
+object.  Inside one section of the pilots lock the two are one step (`update`); with the application outside the lock
+they are `plan` and `apply`, and the other thread may come in between.  States are their values (a notification makes
+the pilot progress to the larger value; final states carry the largest). -/
+
+inductive UpdEv where
+  | update (target : Nat)              -- plan and apply in one lock section
+  | plan (k : Nat) (target : Nat)      -- thread k reads the state and plans
+  | apply (k : Nat)                    -- thread k writes what it planned
+deriving DecidableEq, Repr
+
+structure UpdSt where
+  cur   : Nat
+  plans : List (Nat × Nat) := []
+deriving DecidableEq, Repr
+
+def updStep (s : UpdSt) : UpdEv → UpdSt
+  | .update t => { s with cur := max s.cur t }
+  | .plan k t => { s with plans := s.plans ++ [(k, max s.cur t)] }
+  | .apply k  => match s.plans.find? (fun e => e.1 = k) with
+                 | some (_, v) => { cur := v, plans := s.plans.filter (fun e => e.1 ≠ k) }
+                 | none        => s
+
+def updRun (s : UpdSt) (evs : List UpdEv) : UpdSt := evs.foldl updStep s
+
+/-- the steps of two threads handling targets `a` and `b` -/
+def updThreads (inLock : Bool) (a b : Nat) : List UpdEv × List UpdEv :=
+  if inLock then ([.update a], [.update b]) else ([.plan 0 a, .apply 0], [.plan 1 b, .apply 1])
+
 end RPVerif.Callbacks
